@@ -35,7 +35,11 @@ def gen_system(rng):
         names = rng.sample(fam, min(nlooms, len(fam)))
     else:
         names = rng.sample(["zeta", "alpha.x", "mid", "Beta", "n10", "n9"], nlooms)
+    same_pids = rng.random() < 0.35      # process ids are only unique inside a node
+    prev_pids = []
     for li in range(nlooms):
+        if same_pids:
+            used_pids = set()
         ncpus = rng.randint(1, 4)
         phy = rng.sample(range(0, 64), ncpus)
         procs = []
@@ -56,6 +60,8 @@ def gen_system(rng):
             ppid = pid + rng.randint(0, 5)
             if rng.random() < 0.3:
                 ppid = rng.choice([7, 98, 99, 100, 101, 9998, 10002])
+            if same_pids and prev_pids and len(procs) < len(prev_pids) and rng.random() < 0.8:
+                ppid = prev_pids[len(procs)]
             while ppid in used_pids:
                 ppid += 1
             used_pids.add(ppid)
@@ -64,6 +70,7 @@ def gen_system(rng):
             if ranked:
                 p["rank"], p["nranks"] = rk.pop(), 64
             procs.append(p)
+        prev_pids = [p["pid"] for p in procs]
         looms.append({"name": names[li], "cpus": [(i, phy[i]) for i in range(ncpus)], "procs": procs})
     return {"looms": looms}
 
